@@ -118,6 +118,7 @@ var histSSA bool
 // one-shot faults armed together with a spec change: the next hook call answers 500 / the next child write gets a 500
 var histHookFaults int
 var histWriteFaults int
+var histWriteFaultCode = 500
 
 // histLastErr: the error of the last sync of the last settle (nil = it succeeded)
 var histLastErr error
@@ -183,6 +184,9 @@ func histSettle(w *cworld, bad func(key, format string, a ...interface{})) bool 
 		w.Sim.Plan = func(r *sim.Request) *sim.Fault {
 			if histWriteFaults > 0 && r.Kind == kit.Leaf && r.Mutating() {
 				histWriteFaults--
+				if histWriteFaultCode == 422 {
+					return &sim.Fault{Code: 422, Reason: "Invalid"}
+				}
 				return &sim.Fault{Code: 500, Reason: "InternalError"}
 			}
 			return nil
@@ -379,7 +383,7 @@ func (x *histSys) Events() []string {
 	// every change of the desired state also together with a one-shot fault: the hook fails once / one child
 	// write is refused once - the retries must end in the same cluster
 	for _, e := range append([]string{}, ev...) {
-		ev = append(ev, e+"!hook-500", e+"!write-500")
+		ev = append(ev, e+"!hook-500", e+"!write-500", e+"!write-422")
 	}
 	if x.full {
 		// (a hook that hands back what it observed keeps an annotation / label alive by itself once it is there: with
@@ -424,7 +428,10 @@ func (x *histSys) Apply(ev string) {
 			case "hook-500":
 				histHookFaults = 1
 			case "write-500":
-				histWriteFaults = 1
+				histWriteFaults, histWriteFaultCode = 1, 500
+			case "write-422":
+				// (an admission webhook that is not ready yet, a validation that fails once)
+				histWriteFaults, histWriteFaultCode = 1, 422
 			}
 			ev = ev[:i]
 		}
